@@ -311,17 +311,17 @@ func (s *sim) gossipSlot(slot uint64, blk *blockRec, parent *blockRec, hb *state
 		span := last - msgSlot
 		switch r.Intn(9) {
 		case 0:
-			g.nowMs = int64(msgSlot)*msPerSlot - 400
+			g.nowMs = int64(msgSlot)*msPerSlot - 400 - int64(r.Intn(101)) // (down to exactly 500 ms early)
 			if g.nowMs < 0 {
 				g.nowMs = save
 				return "", restore
 			}
 			s.res.Stat("fault_clock_edge", 1)
-			return " (node clock 400 ms before the message's slot: inside the disparity allowance)", restore
+			return fmt.Sprintf(" (node clock %d ms before the message's slot: inside the disparity allowance)", int64(msgSlot)*msPerSlot-g.nowMs), restore
 		case 1:
-			g.nowMs = int64(msgSlot+span+1)*msPerSlot + 400
+			g.nowMs = int64(msgSlot+span+1)*msPerSlot + 400 + int64(r.Intn(100)) // (up to 499 ms late)
 			s.res.Stat("fault_clock_edge", 1)
-			return fmt.Sprintf(" (node clock 400 ms after the last slot of the %d-slot window: inside the disparity allowance)", span), restore
+			return fmt.Sprintf(" (node clock %d ms after the last slot of the %d-slot window: inside the disparity allowance)", g.nowMs-int64(msgSlot+span+1)*msPerSlot, span), restore
 		case 2:
 			g.nowMs = int64(msgSlot+span+1)*msPerSlot - 100
 			s.res.Stat("fault_clock_edge", 1)
@@ -419,7 +419,7 @@ func (s *sim) gossipSlot(slot uint64, blk *blockRec, parent *blockRec, hb *state
 			}
 		case mode == 1: // the node's clock is a slot behind
 			save := g.nowMs
-			g.nowMs = int64(slot)*msPerSlot - msPerSlot - 600
+			g.nowMs = int64(slot)*msPerSlot - 501 - int64(r.Intn(int(msPerSlot)+100)) // (just outside the allowance, up to a slot early)
 			if g.nowMs >= 0 {
 				res, p := validate(func() gossipval.GossipValidatorResult { return gossipval.ValidateBeaconBlock(ctx, env, g) })
 				s.judge(g, "beacon_block", what+" from the future (clock skew)", expTiming, res, p)
@@ -605,7 +605,7 @@ func (s *sim) gossipSlot(slot uint64, blk *blockRec, parent *blockRec, hb *state
 				s.judge(g, "attestation", what+" with a committee index out of range", expInvalid, res, p)
 			case mode == 5: // clock far behind: the vote is from the future
 				save := g.nowMs
-				g.nowMs = int64(slot)*msPerSlot - msPerSlot - 600
+				g.nowMs = int64(slot)*msPerSlot - 501 - int64(r.Intn(int(msPerSlot)+100))
 				if g.nowMs >= 0 {
 					res, p := validate(func() gossipval.GossipValidatorResult {
 						_, x := gossipval.ValidateAttestation(ctx, subnet, att, g)
@@ -617,12 +617,12 @@ func (s *sim) gossipSlot(slot uint64, blk *blockRec, parent *blockRec, hb *state
 			case mode == 6: // clock far ahead: beyond the propagation range
 				if lastSlot, sameRule := lastVoteSlot(slot); sameRule {
 					save := g.nowMs
-					g.nowMs = int64(lastSlot+2) * msPerSlot
+					g.nowMs = int64(lastSlot+1)*msPerSlot + 501 + int64(r.Intn(int(2*msPerSlot))) // (from just outside the allowance on)
 					res, p := validate(func() gossipval.GossipValidatorResult {
 						_, x := gossipval.ValidateAttestation(ctx, subnet, att, g)
 						return x
 					})
-					s.judge(g, "attestation", what+fmt.Sprintf(" received in slot %d, after the last slot (%d) in which it may be propagated", lastSlot+2, lastSlot), expTiming, res, p)
+					s.judge(g, "attestation", what+fmt.Sprintf(" received %d ms after the end of the last slot (%d) in which it may be propagated", g.nowMs-int64(lastSlot+1)*msPerSlot, lastSlot), expTiming, res, p)
 					g.nowMs = save
 				}
 			case mode == 7 && head != w.genesis: // voted block not yet seen
@@ -1027,7 +1027,7 @@ func (s *sim) gossipSlot(slot uint64, blk *blockRec, parent *blockRec, hb *state
 						return x
 					})
 				}
-				switch r.Intn(6) {
+				switch r.Intn(8) {
 				case 0:
 					bad := *m
 					flipSig(&bad.Signature)
@@ -1051,6 +1051,15 @@ func (s *sim) gossipSlot(slot uint64, blk *blockRec, parent *blockRec, hb *state
 					g.nowMs = int64(slot+3) * msPerSlot
 					res, p := run(subnet, m)
 					s.judge(g, "sync_committee", what+" for a past slot", expTiming, res, p)
+					g.nowMs = save
+				case 4, 5:
+					// one slot late: the message's slot is no longer the current slot, not even with the
+					// clock disparity allowance (600 ms or more into the next slot)
+					save := g.nowMs
+					g.nowMs = int64(slot+1)*msPerSlot + 501 + int64(r.Intn(int(msPerSlot)-501))
+					res, p := run(subnet, m)
+					s.res.Stat("probe_sync_message_one_slot_late", 1)
+					s.judge(g, "sync_committee", what+fmt.Sprintf(" received %d ms into the next slot", g.nowMs-int64(slot+1)*msPerSlot), expTiming, res, p)
 					g.nowMs = save
 				case 3:
 					bad := *m
@@ -1116,7 +1125,15 @@ func (s *sim) gossipSlot(slot uint64, blk *blockRec, parent *blockRec, hb *state
 					return x
 				})
 			}
-			switch r.Intn(8) {
+			switch r.Intn(10) {
+			case 8, 9:
+				// one slot late (600 ms or more into the next slot)
+				save := g.nowMs
+				g.nowMs = int64(slot+1)*msPerSlot + 501 + int64(r.Intn(int(msPerSlot)-501))
+				res, p := run(signed)
+				s.res.Stat("probe_sync_contribution_one_slot_late", 1)
+				s.judge(g, "sync_contribution", what+fmt.Sprintf(" received %d ms into the next slot", g.nowMs-int64(slot+1)*msPerSlot), expTiming, res, p)
+				g.nowMs = save
 			case 6:
 				// aggregator that sits in the committee but not in THIS subcommittee
 				inThis := map[common.BLSPubkey]bool{}
